@@ -12,8 +12,12 @@ CHECKS = {
         text=("Lean 4 models of the whole NanoVM back end - lexer, parser, bytecode generator (module assembly included) and VM - and an independent reference "
               "semantics `Sem` in a VM and a native configuration. Proved: the two configurations coincide on every operator application except division/modulo "
               "by zero, the one documented point where the engines may differ, and that fault arises only there (cfg_agree_arith, divZero_only_from_zero_divisor, "
-              "vm_never_divZero). The compiler theorem (VM model running the generated code = reference) is being extended fragment by fragment in Props/Compile*.lean; "
-              "what is not yet proved is covered by correspondence only. The native back end is not modelled as code: it is represented by Sem's native configuration "
+              "vm_never_divZero). Compiler correctness is proved for the pure expression fragment, with no bound on size or nesting (compile_expr_correct, by induction "
+              "over the expression; Lemmas/VmExec.lean, Lemmas/CompileExpr.lean): for integer and boolean literals, local and global variables, unary minus and not, "
+              "the eleven strict binary operators and short-circuit and/or, the bytes that compile_expr emits - decoded and dispatched by the VM model's own step "
+              "function at any offset of any function of any module below 2 GiB - push exactly the value the reference computes and leave heap, output, globals, "
+              "frames and the rest of the stack unchanged; compile_expr_correct_native carries it to the reference's native configuration (native_ok_implies_vm). "
+              "Statements, calls, strings and containers are not covered by that theorem yet: there agreement rests on correspondence only. The native back end is not modelled as code: it is represented by Sem's native configuration "
               "(tied in C02) and compared directly with the VM: every program is compiled by nanoc and run and run by nano_virt --run, stdout and exit status must be "
               "equal unless the reference says the run performs a partial operation. VM side tied by byte-identical .nvm files from the front-end models."),
         note=TB + " Partial: no theorem covers the C transpiler or the C runtime; the proved statement about the two back ends is at the level of the reference configurations.",
